@@ -10,8 +10,8 @@ histories; model: Model/HeapCut.lean, driver `heapc.run`; Props/C18Short.lean).
 * correspondence: after every operation the status (ok / exception class), the value a `read` returned, and for every live
   instance the deep value of all its reads and its encoding are compared between model and implementation;
 * oracle (implementation only): an operation about instance `a` changes neither the reads nor the encoding of any other
-  instance; reading / encoding / scribbling over a decode buffer changes nobody; an instance created later (constructor or
-  decoder) reads and encodes exactly what a pristine instance of that class / the decoded bytes say; no mutable object is
+  instance; reading / encoding / scribbling over / cutting a decode buffer changes nobody; an instance created later (constructor or
+  decoder) reads and encodes exactly what a pristine instance of that class / the first decode of the same bytes read; no mutable object is
   reachable through reads from two instances, from an instance and a class-level default, or from an instance and a buffer.
 """
 import itertools
@@ -562,6 +562,7 @@ def execute(spec, ops, world=None):
             pristine[c] = pristine_view(w, c, r)
     results, findings = [], []
     prev = []
+    first_decode = {}
     for idx, op in enumerate(ops):
         n_before = len(r.insts)
         status, rd = r.apply(op)
@@ -585,6 +586,15 @@ def execute(spec, ops, world=None):
                 findings.append((idx, root or 'fresh-instance-depends-on-history',
                                  f'op {idx}: a new instance of class {op[1]} reads/encodes {sx(views[-1])[:140]}, '
                                  f'a pristine one {sx(pristine[op[1]])[:140]}'))
+        # (2b) a decoded instance is a function of the bytes: decoding the same bytes again — after earlier decoded messages were
+        # changed in place, after anything — reads and encodes what the first decode of these bytes read and encoded
+        if status == 'ok' and op[0] == 'decode' and op[2] < len(r.bufs):
+            key = (op[1] if op[1] not in w.msg else 'bin', bytes(r.bufs[op[2]]))
+            if key in first_decode and sx(first_decode[key][1]) != sx(views[-1]):
+                findings.append((idx, root or 'decode-depends-on-history',
+                                 f'op {idx} {sx(op)[:60]}: decoding the bytes that op {first_decode[key][0]} decoded now gives '
+                                 f'{sx(views[-1])[:140]}, then {sx(first_decode[key][1])[:140]}'))
+            first_decode.setdefault(key, (idx, views[-1]))
         # (3) no mutable object is reachable from two instances / a class-level default / a buffer
         if op[0] in ('new', 'decode', 'assign', 'append', 'setidx', 'copy', 'clone') and status == 'ok':
             f = sharing(r)
